@@ -93,13 +93,14 @@ def scenario_of(prog, cfg, n_exec=1, type_="STANDARD", rng=None, stagger=None):
             "script": prog["script"], "functions": prog["functions"], "config": cfg}
 
 
-def model_for(scn, k=0, counters=None):
+def model_for(scn, k=0, counters=None, start=None):
+    """start: the absolute instant the execution really started at, when that is not EPOCH + its scheduled offset."""
     ex = scn["executions"][k]
     m = scn["machines"][ex["machine"]]
     cfg = scn["config"]
     return run_model(m["definition"], ex["input"], scn["script"], cfg.get("execution_ttl", 86400), ex["name"],
-                     SM_ARN % ex["machine"], EX_ARN % (ex["machine"], ex["name"]), EPOCH + ex.get("at", 0.0),
-                     counters)
+                     SM_ARN % ex["machine"], EX_ARN % (ex["machine"], ex["name"]),
+                     EPOCH + ex.get("at", 0.0) if start is None else start, counters)
 
 
 def compare_outcome(mo, term):
